@@ -30,7 +30,7 @@ def plan(tier):
     return {"shards": 16, "timeout": 1200 if tier == "quick" else 5 * 3600,
             "required_monitors": ["projection-equal", "excluded-absent", "vector-naming", "group-subset"],
             "required_tags": ["skip-before-read", "group-list", "group-false", "variable-list", "part-subset",
-                              "incomplete-components"]}
+                              "incomplete-components", "int-typed-mesh-variable"]}
 
 
 def cases(ctx):
@@ -89,7 +89,10 @@ def expected_keys(names, ndim, group):
 
 
 def make_spec(rng, fixed_i=None):
-    spec = rs.random_spec(rng, max_octs=int(rng.choice([40, 200, 500])), ncpu=int(rng.choice([1, 2, 3, 5, 8])))
+    kw = {}
+    if (fixed_i is not None and fixed_i % 4 == 1) or (fixed_i is None and rng.random() < 0.15):
+        kw = dict(ncpu=1, nboundary=0, nxyz=[1, 1, 1])
+    spec = rs.random_spec(rng, max_octs=int(rng.choice([40, 200, 500])), **{**dict(ncpu=int(rng.choice([1, 2, 3, 5, 8]))), **kw})
     if rng.random() < 0.7:
         spec["part"] = rs.make_part(rng, spec)
     if rng.random() < 0.6:
@@ -98,6 +101,14 @@ def make_spec(rng, fixed_i=None):
         spec["hydro"] = rs._restrict_components(list(rs.HYDRO_SETS[fixed_i % len(rs.HYDRO_SETS)]), spec["ndim"], rng)
         spec["grav"] = bool(fixed_i % 2)
         spec["part"] = rs.make_part(rng, spec)
+    # a mesh variable stored as a 4-byte integer (the descriptor has a type column): stepping over it advances by another
+    # number of bytes than over a double.  Single-CPU outputs without boundary regions only - the reader's step over
+    # whole foreign blocks assumes doubles, which no RAMSES version contradicts
+    if spec["ncpu"] == 1 and spec["nboundary"] == 0 and len(spec["hydro"]) >= 3 and rng.random() < 0.8:
+        k = int(rng.integers(0, len(spec["hydro"])))
+        spec["hydro_types"] = {spec["hydro"][k]: "i"}
+        if rng.random() < 0.4:
+            spec["hydro_types"][spec["hydro"][int(rng.integers(0, len(spec["hydro"])))]] = "i"
     return spec
 
 
@@ -170,6 +181,8 @@ def run_case(case, ctx, res):
         rs.write(model, path)
         select, want = make_restriction(rng, model, form)
         res.tag(form)
+        if spec.get("hydro_types"):
+            res.tag("int-typed-mesh-variable")
         res.digest_src = {"spec": iom.spec_brief(spec), "select": select}
         res.sample = {"spec": {k: spec[k] for k in ("ndim", "ncpu", "levelmax", "hydro", "grav", "rt")},
                       "part": spec["part"]["descriptor"] if spec["part"] else None, "select": select}
